@@ -128,6 +128,17 @@ def cases(seed, tier, shard, nshards):
         yield dict(inputs=inputs, order=order, seeds=cfg['seeds'], sampler_seed=rng.randrange(10 ** 6),
                    features=sorted({f for li in inputs for f in li['features']} | {'kind_' + li['kind'] for li in inputs}))
     yield from MC.resolver_workload(rng, cfg['plain'] // nshards)
+    # large coarse nodes: more than a hundred (with hydrogens) and, once per run, more than a thousand atoms in one node,
+    # halogens (two-letter elements) far down the block
+    for _ in range(max(1, cfg['plain'] // (400 * nshards))):
+        c = MC.random_cut_case(rng, rng.choice([40, 60]), max_parts=2, mol_kw=dict(p_arom=0.1, charged=False), plain_names=True)
+        if c is not None:
+            c['features'] = sorted(set(c['features']) | {'large_fragment'})
+            yield c
+    if shard == seed % nshards:
+        n = rng.choice([335, 350, 400])
+        yield dict(kind='cut', ctor='string', base_string='{[#A][#B][#A]}', frag_string='{#A=Cl' + 'C' * n + '(Br)[$],#B=[$]C(Cl)[$]}',
+                   features=['huge_fragment_over_1000_atoms'], nheavy=2 * n + 7, nfrag=3)
 
 
 class Shared:
